@@ -84,6 +84,21 @@ BUILT = {
             'Trusts vkit/oracles/zernike_rules.py (self-tested against hand-copied published tables at every shard start); '
             'the sign of sine terms and Fringe term 37 follow the library (not fixed by the statement).',
             'DESIGN.md §4 C10'),
+    'C06': ('closed-form oracle: ten analytically stigmatic families built from their defining parameters; rays, optical paths, Wavefront and FFTPSF Strehl observed',
+            'Exploration: 300 (quick) / 9.6k (thorough) systems over the closed-form families (paraboloid, folded paraboloid, '
+            'ellipsoid between foci, Cassegrain, Gregorian, plano-hyperbolic singlet, immersed ellipsoidal surface, sphere at '
+            'its centre, aplanatic points) with f-numbers down to 0.6; every traced ray must meet the image point and all '
+            'paths be equal at 1e-9 of the focal scale, W <= 1e-6 waves, |Strehl-1| <= 1e-6. Held = all did.',
+            'Trusts the analytic constructions in props/c06.py; virtual-image families are decided by back-extension on '
+            'the surface record (wavefront/Strehl not evaluated for them).',
+            'DESIGN.md §4 C06'),
+    'C07': ('metamorphic monitor: one relation per case (mirror symmetries, tilt about the centre of curvature, dummy surface, wavelength change, length scaling, scale_system) on paired traces',
+            'Exploration: 350 (quick) / 24k (thorough) lens-relation pairs; per-surface ray records of the original and '
+            'the transformed lens must agree at 1e-9 of the system scale after the stated transformation; scale_system is '
+            'compared field by field with the lens rebuilt from the scaled spec. Held = no pair disagreed.',
+            'Rays that leave the domain of a relation (recorded off the vertex sheet, lost at a dummy met from behind) are '
+            'excluded and counted; the launch record of infinite-object lenses is not "downstream" of a dummy surface.',
+            'DESIGN.md §4 C07'),
 }
 
 NOT_YET = {}
